@@ -278,7 +278,7 @@ PROPS.update({
                    'monotone in the limit, below it the depth error). Rejected inputs: only "not accepted" is compared (a recovering '
                    'run legitimately performs more actions before it fails).',
         technique='Rocq proof (option simulation of the LL push-down automaton; peak-depth characterisation) + differential option matrix on the real parsers',
-        streams=[dict(cmd='c20', quick=240, thorough=8000)],
+        streams=[dict(cmd='c20', quick=240, thorough=4000)],
         rule='alternately LL(k) grammars (as C01) and LALR(1) grammars (as C03); inputs: random sentences, mutants, all strings of '
              'length <= 2 (LL) / up to a bound (LR), each also rendered with line/block comments before, between and after the tokens; '
              'options: all recovery x trim combinations without limit, and limits 0,1,2,3,4,5,6,8,10,13,20,3000 with random flags; '
@@ -577,7 +577,7 @@ PROPS.update({
                    'Example show they are needed). Cyclic LALR grammars have no certificate and the real LR parser does loop on them: known '
                    'finding D15. Stack overflow of the Rust process on deep recursion and memory exhaustion are outside the model.',
         technique='Rocq proof (termination measures for the LL push-down automaton with recovery and for the LR automaton via tree-size bounds; certificate checkers) + watchdog run of the real parsers on arbitrary text',
-        streams=[dict(cmd='c19', quick=640, thorough=12000)],
+        streams=[dict(cmd='c19', quick=640, thorough=6000)],
         rule='alternately LL(k) tables (BNF as C01, EBNF with repetitions) and LALR(1) tables (as C03, 1/4 with resolved conflicts); per '
              'table: sentences, 2-8 edit mutants (some repeated up to 6 times), commented mutants, and random texts in four styles '
              '(arbitrary bytes, letter soup, grammar terminals with junk and comment fragments, one token repeated up to 400 times); LL: each '
@@ -598,7 +598,7 @@ PROPS.update({
                    'presence only; lookahead patterns by sign.',
         technique='translation validation of generated source text and export JSON with Rocq-proved table checkers',
         needs_parol_bin=True,
-        streams=[dict(cmd='c21', quick=480, thorough=12000, extra=[f for f in _PAR_FILES if '/tests/data/' not in f or 'arg_tests' in f])],
+        streams=[dict(cmd='c21', quick=480, thorough=3000, extra=[f for f in _PAR_FILES if '/tests/data/' not in f or 'arg_tests' in f])],
         rule='repository grammars (< 5 KB quick / < 12 KB thorough) plus generated ones: random EBNF (LL and LALR), LL(1)-by-construction '
              'EBNF with repetitions/optionals, BNF shapes of C01/C03, grammars with scanner states, %on/%enter/%push/%pop transitions, '
              'lookahead terminals, comments and %allow_unmatched (as C13), each LL and LALR; K in 1..4; non-trivial = source and export '
